@@ -1,0 +1,19 @@
+//go:build verif
+
+package gblsminsig
+
+import (
+	"math/big"
+
+	"github.com/bits-and-blooms/bitset"
+)
+
+// VerifCalculateCombinationIndex exposes calculateCombinationIndex to the verification harness.
+func VerifCalculateCombinationIndex(nKeys int, bs *bitset.BitSet, out *big.Int) {
+	calculateCombinationIndex(nKeys, bs, out)
+}
+
+// VerifDecodeCombinationIndex exposes decodeCombinationIndex to the verification harness.
+func VerifDecodeCombinationIndex(nKeys int, k int, combIndex *big.Int, out *bitset.BitSet) {
+	decodeCombinationIndex(nKeys, k, combIndex, out)
+}
